@@ -28,11 +28,13 @@ TEXT = {
          "a COSE_Sign1 / COSE_Mac0 produced with default headers verifies under any verifier correct for the signer and yields the original payload, for every payload, external data, key and every unprotected map "
          "with scalar / list values in whatever order Go presents its entries (the decoded unprotected map answers every look-up with the decoded form of the original value); "
          "typed payloads (claims maps, keys) come back answering every look-up as the original, and a CWT produced this way is validated exactly like the original claims for every validator configuration (CwtEndToEnd); "
-         "a COSE_Encrypt0 produced with default protected header decrypts to the original payload for every payload, external data, unprotected map and nonce choice (caller IV, Partial IV + Base IV, library-drawn nonce), with no cryptographic hypothesis for the three AEAD models (C12 round-trip theorems). "
+         "a COSE_Encrypt0 produced with default protected header decrypts to the original payload for every payload, external data, unprotected map and nonce choice (caller IV, Partial IV + Base IV, library-drawn nonce), with no cryptographic hypothesis for the three AEAD models (C12 round-trip theorems); "
+         "a COSE_Sign signed by any number of signers (default per-signature headers) decodes to one signature per signer and verifies under every verifier list in which each signer's kid finds a verifier of the same algorithm accepting what the signer signs - "
+         "e.g. counterpart keys with pairwise different kids (C01Sign, induction over the signer list); a COSE_Mac carrying any number of three-member recipients passes the decoder's first-octet recipient dispatch, returns its recipients and verifies (C01Mac). "
          "The model is tied to the library by byte-exact produce + consume correspondence over 6 kinds x 24 algorithms x 3 tag forms",
-         "signature correctness assumed (cross-checked by Lean ECDSA/Ed25519); caller-supplied protected maps, nested-map header values, typed payloads, Sign/Mac/Encrypt with recipients by correspondence only", T, "7.1"),
+         "signature correctness assumed (cross-checked by Lean ECDSA/Ed25519); caller-supplied protected maps, nested-map header values, nested recipients and COSE_Encrypt with recipients by correspondence only", T, "7.1"),
  "C02": ("Lean theorems: verification soundness (success implies the primitive accepted exactly the RFC 9052 structure of the received protected/payload bytes and caller's external data), injectivity of the structure "
-         "(tampering = forgery), kind change changes the bytes, zero signatures / unmatched kid / any failing signature reject; history freedom over regenerated footprints (UnmarshalCBOR overwrites every field Verify reads, Verify recomputes the to-be-signed bytes and writes nothing else). Executable model with Lean primitives predicts the verdict of every mutated message in the run",
+         "(tampering = forgery), kind change changes the bytes, zero signatures / unmatched kid / any failing signature reject, and conversely a genuine COSE_Sign of any number of signers verifies (C01Sign); history freedom over regenerated footprints (UnmarshalCBOR overwrites every field Verify reads, Verify recomputes the to-be-signed bytes and writes nothing else). Executable model with Lean primitives predicts the verdict of every mutated message in the run",
          "unforgeability of the primitives assumed", T, "7.2"),
  "C03": ("Lean theorems: decrypt soundness (success implies the AEAD opened the received ciphertext under the nonce derived from the received headers with AAD = RFC 9052 Enc_structure), AAD injectivity, "
          "payload untouched on every failure; Decrypt recomputes the Enc_structure on every call (regenerated footprint); with C12's uniqueness an accepted change is a tag forgery. Mutation run with payload inspection after failed Decrypt, reuse of one message object / encryptor across two messages (msg.reuse), and the AEAD primitives themselves (prim:aead)",
@@ -47,9 +49,10 @@ TEXT = {
          "never panics (the >= guard keeps the slice in range); random nonce is published in header 5; each encryption consumes its own block of the random stream; GetRandomBytes is make + crypto/rand.Read with no package state (regenerated). Recording Encryptor correspondence, sequences on one key object (seq) and histories of 10^4..10^6 library-chosen nonces per algorithm (msg.noncehistory)",
          "crypto/rand quality not a theorem", T, "7.6"),
  "C09": ("Lean theorems: re-encoding a decoded COSE_Sign1/COSE_Mac0 preserves protected, payload and signature/tag bytes, hence the verdict; COSE_Signature re-encodes its received bucket verbatim; RemoveCBORTag removes only the tag; "
-         "prefix bytes and tag numbers regenerated from the source; label maps (keys, header maps, claim maps with scalar / list values, any entry order) decode from their encoding with every typed accessor answering as before. "
+         "prefix bytes and tag numbers regenerated from the source; label maps (keys, header maps, claim maps with scalar / list values, any entry order) decode from their encoding with every typed accessor answering as before; "
+         "a COSE_KDF_Context survives encode -> decode member by member, absent staying absent and present-but-empty staying present, through the decoder's first-octet dispatch (KdfRoundtrip, over the raw-item lemmas skipItem / rawArrayElems of Cbor/RawLemmas). "
          "Chains decode->encode->decode->verify on library-produced and foreign messages by correspondence",
-         "value round trips of maps with nested maps, recipients, KDF contexts, Claims structs by correspondence", T, "7.9"),
+         "value round trips of maps with nested maps, nested recipients, Claims structs by correspondence", T, "7.9"),
  "C08": ("Lean theorems about the CBOR model for values of any size and depth: decode(encode v ++ r) = (v, r) (hence injective, prefix-free, accepted back), "
          "encoding independent of map entry order and of Go integer kind, shortest heads, sorted keys; decoder rejects indefinite lengths, duplicate keys "
          "(by value) at any depth, trailing bytes, out-of-range / ill-typed labels. Encoder/decoder options regenerated from key/cbor.go. "
